@@ -140,7 +140,9 @@ class Valuation:
             ck = (fname, len(derivs), y)
             d = self._dcache.get(ck)
             if d is None:
-                d = registry()[fname].deriv_value(self.seed, len(derivs), np.asarray(y))
+                from .opaque import concrete as _conc
+                with _conc(self.seed, getattr(self, "scale", 1.0)):
+                    d = registry()[fname].deriv_value(self.seed, len(derivs), np.asarray(y))
                 self._dcache[ck] = d
             return float(d[(j,) + tuple(derivs)])
         raise KeyError(f"no numeric value for atom {a}")
@@ -443,7 +445,7 @@ class EqObligation(Obligation):
     def _native(self, b, val):
         import contextlib, io
         arrays = [jnp.asarray(a, dtype=i.example().dtype) for a, i in zip(val.arrays, b["inputs"])]
-        with concrete(val.seed), contextlib.redirect_stdout(io.StringIO()):      # the code's own progress prints are not ours
+        with concrete(val.seed, getattr(val, "scale", 1.0)), contextlib.redirect_stdout(io.StringIO()):      # the code's own progress prints are not ours
             out = b["fn"](*arrays)
             out = [np.asarray(x, dtype=float) for x in jax.tree_util.tree_leaves(out)]
             try:
@@ -512,6 +514,24 @@ class EqObligation(Obligation):
                         break
             except Exception as e:
                 rec["special_valuation_error"] = str(e)[:200]
+        if not rec["native_disagrees"]:
+            # candidates of tiny / huge magnitude (comparisons of a network value with a constant)
+            try:
+                syms = [JI.sym_input(i.name, tuple(i.shape), "bool" if i.kind == "bool" else "real") for i in b["inputs"]]
+                spec_l = flatten_out(spec(*syms))
+                for scale in (1e-8, 1e-3, 1e4):
+                    val = Valuation(b["inputs"], seed + 13)
+                    val.scale = scale
+                    tried += 1
+                    nat = self._native(b, val)
+                    exp = numeric(spec_l, val)
+                    if len(nat) != len(exp) or not all(close(x, y, 1e-6, 1e-8) for x, y in zip(nat, exp)):
+                        rec.update(native_disagrees=True, seed=val.seed, inputs=_inputs(b, val),
+                                   special=f"uninterpreted functions instantiated with amplitude {scale}",
+                                   native=[_arr(x) for x in nat], expected=[_arr(x) for x in exp])
+                        break
+            except Exception as e:
+                rec["scaled_valuation_error"] = str(e)[:200]
         rec["valuations_tried"] = tried
         res["replay"] = rec
 
